@@ -132,7 +132,7 @@ pub fn corpus_run(out_path: &str, mutants: usize, max_steps: usize) {
                 | Ok(res) => (verdict_of(&res), res.ok()),
                 | Err(panic) => (Verdict::Panic { panic }, None),
             };
-            let mut run_all = |tag: &str, session: &CompilerSession, a: &zydeco_session::ProgramAnalysis, rng: &mut Rng,
+            let run_all = |tag: &str, session: &CompilerSession, a: &zydeco_session::ProgramAnalysis, rng: &mut Rng,
                                events: &mut Vec<serde_json::Value>| {
                 for (k, input) in stdin_variants(rng).into_iter().enumerate() {
                     let args: Vec<String> = (0..k % 3).map(|i| format!("arg{i}")).collect();
